@@ -25,7 +25,8 @@ API
       Script.reads collects the (block, slot, iter) keys of `conv` that the implementation actually read.
   make_controller(num_procs, nlevels, maxiter, nsweeps, predict_type, mssdc_jac, all_to_done, dt,
                   num_nodes=2, lam=-1.0, extra_cc=None, controller_class=None) -> (controller, Recorder)
-  run_scripted(controller, rec, script, t0, Tend, u0=1.0) -> Result
+  run_scripted(controller, rec, script, t0, Tend, u0=1.0, max_events=400000) -> Result
+      (a run recording more than max_events events is aborted with outcome 'ScriptedRunaway')
       Result.events   list of tuples, see EVENT FORMAT
       Result.outcome  'ok' or the exception class name ('ControllerError', 'CommunicationError', ...)
       Result.error    str(exception) or None
@@ -94,9 +95,14 @@ class _Ctx:
         self.probs = {}
         self.on = False
         self.controller = None
+        self.max_events = 400000     # runaway guard: a run recording more events raises ScriptedRunaway
 
 
 CTX = _Ctx()
+
+
+class ScriptedRunaway(RuntimeError):
+    """Raised by the recording hook when a run exceeds CTX.max_events (e.g. a time loop that does not advance)."""
 
 
 def _who(level):
@@ -203,6 +209,8 @@ class RecordingHook(Hooks):
     def _rec(self, name, step, level_number):
         if not CTX.on:
             return
+        if len(CTX.events) > CTX.max_events:
+            raise ScriptedRunaway('more than %d events recorded' % CTX.max_events)
         if name in AUX_NAMES:
             CTX.events.append(('aux', name, None if step is None else step.status.slot, level_number))
             return
@@ -364,7 +372,7 @@ def snapshot_steps(controller):
     return out
 
 
-def run_scripted(controller, rec, script, t0, Tend, u0=1.0):
+def run_scripted(controller, rec, script, t0, Tend, u0=1.0, max_events=400000):
     P = controller.MS[0].levels[0].prob
     u0_obj = P.dtype_u(P.init)
     u0_obj[:] = u0
@@ -373,6 +381,7 @@ def run_scripted(controller, rec, script, t0, Tend, u0=1.0):
     CTX.block = -1
     CTX.levels = rec.levels
     CTX.controller = controller
+    CTX.max_events = max_events
     res = Result()
     res.u0_obj = u0_obj
     res.u0_val = _val(u0_obj)
